@@ -105,10 +105,15 @@ func runC12(a *A) {
 				if !strings.HasPrefix(f, ".") {
 					return
 				}
-				fmts = append(fmts, f)
 				parts := strings.SplitN(fmtArgs(t, rv, c.Common().Args, 0, 0), ",", 2)
+				rest := ""
 				if len(parts) == 2 {
-					args = append(args, parts[1])
+					rest = parts[1]
+				}
+				f, rest = starWidth(f, rest)
+				fmts = append(fmts, f)
+				if rest != "" {
+					args = append(args, rest)
 				}
 				pos = w.posOf(c)
 			})
@@ -180,6 +185,16 @@ func runC12(a *A) {
 			if c, ok := in.(*ssa.Call); ok && staticCalleeIs(c.Common(), "fmt.Fprintf") {
 				f, _ := constString(c.Common().Args[1])
 				okFmt = f == "%04d-%02d-%02d %02d:%02d:%02d"
+			}
+			// the same rendering through the time package's reference layout
+			if c, ok := in.(*ssa.Call); ok && (staticCalleeIs(c.Common(), "(time.Time).Format") || staticCalleeIs(c.Common(), "(time.Time).AppendFormat")) {
+				layout, _ := constString(c.Common().Args[len(c.Common().Args)-1])
+				if l := resolve(c.Common().Args[len(c.Common().Args)-1]); layout == "" {
+					layout, _ = constString(l)
+				}
+				if layout == "2006-01-02 15:04:05" {
+					okFmt = true
+				}
 			}
 		})
 		zt := w.Repl.Var("ZeroTimestamp")
